@@ -14,6 +14,14 @@ for f in sorted(glob.glob('/verif/seeded/*/meta.json')):
             best = (tier, r)
             break
     other = m.get('detected_by_other_checks', [])
+    rg = m.get('regression')
+    if rg:
+        # the latest re-run of the property's (current) quick check against /repo + this change
+        if rg.get('exit') == 1 and rg.get('violations', 0) > 0:
+            best = ('quick, re-run at %s' % rg.get('verif_commit', '?'), {'fingerprints': rg.get('fingerprints')})
+        else:
+            best = None
+            res = {'quick': {'exit': rg.get('exit')}}
     if best:
         det = "**yes** (%s): `%s`" % (best[0], (best[1]['fingerprints'] or ['?'])[0][:110])
     elif other:
@@ -29,7 +37,9 @@ out = ["# Seeded changes", "",
        "property text (never /verif): `patch.diff`, the agent's demonstration (fails with the change, passes without),",
        "and `meta.json` (what it breaks, what it needs to manifest, and what `scripts/eval_seed.sh` observed: demo",
        "without/with the change, the repository's own tests with the change, and the property's check run against the",
-       "changed tree with `VERIF_REPO=<scratch worktree> ./run.sh <ID>`). None of these changes is in /repo.", "",
+       "changed tree with `VERIF_REPO=<scratch worktree> ./run.sh <ID>`). None of these changes is in /repo.",
+       "`scripts/regress_seeds.sh` re-runs every change against the current checks (field `regression` of meta.json;",
+       "the schedule-engine checks with a 6 s per-scenario budget there instead of 20 s); the table shows that latest run.", "",
        "| seed | property | confirmed | detected by the property's check | change | needs |", "|---|---|---|---|---|---|"]
 for r in rows:
     out.append("| %s | %s | %s | %s | %s | %s |" % r)
